@@ -115,13 +115,14 @@ unit("C20", "Side metadata behaves as an array of independent fixed-width intege
           "1.5M-op random histories per spec (thorough 40M) of load/store/atomic/set_zero/compare_exchange ok+fail/fetch_add/sub/and/or/fetch_update accept+reject, 25% of data addresses not region aligned, "
           "fields biased to neighbours sharing a byte/word; distinct = (op, width, region, shift-in-byte, neighbour relation, outcome); "
           "concurrent phase: 14 windows (7 widths x region 2^{3,12}) x {2,3,4} real threads, field i owned by thread i mod T (so fields sharing a byte/word change concurrently), "
-          "150k (thorough 2M) atomic ops per thread on owned fields only: every return value is determined by the owner's private model; at the join the whole window equals the merged models",
+          "150k (thorough 2M) atomic ops per thread on owned fields only: every return value is determined by the owner's private model; at the join the whole window equals the merged models; "
+          "observer phase: one writer keeps 8 neighbouring fields odd at all times with the atomic accessors while 1 or 3 observer threads read the same fields (load_atomic and value-preserving RMWs): an even value is one the field never held",
      technique="reference-model monitor: Vec<u64> field model vs real SideMetadataSpec accessors; whole raw metadata window (with margins) compared byte-by-byte after every op; single-owner-per-field histories under real threads for independence of the atomic accessors",
      level_text="Every return value and the full metadata window are compared with a field-array model after every operation of long random histories on randomly pre-filled metadata; "
                 "all widths and several region sizes enumerated.",
      note="Values always fit the field width and T matches the width as the API requires. Memory orderings are not part of the property: Release-ordering panics on sub-byte specs are recorded as notes only.",
      design_ref="2/C20",
-     floors={"quick": {"configs": 42, "evaluations": 50000000, "selftest_mutants_caught": 6, "concurrent_windows": 42, "concurrent_ops": 15000000,
+     floors={"quick": {"configs": 42, "evaluations": 50000000, "selftest_mutants_caught": 6, "concurrent_windows": 42, "concurrent_ops": 15000000, "observer_reads": 200000, "observer_distinct_values_seen": 100,
                        "concurrent_fetch_update_closure_retries": 5}})
 
 unit("C21", "Bulk side-metadata zero/set/copy touch exactly the covered regions",
